@@ -90,6 +90,7 @@ type trackedSecret struct {
 	closed bool
 	inside int
 	n      int
+	size   int
 }
 
 func runC11(t *simrt.Tape, o Opts) Outcome {
@@ -170,8 +171,10 @@ func runC11(t *simrt.Tape, o Opts) Outcome {
 			closes++
 			count(st.Oracle, "after-close")
 			if ts.addr != 0 {
+				// (a mapping sized like the secret: the runtime's own PROT_NONE reservations may come to
+				// cover a released address)
 				pm := fakes.ProcPerms(ts.addr)
-				if pm.Found && (pm.Perms == "---p" || pm.Perms == "r--p") {
+				if pm.SizedLike(ts.addr, ts.size) && (pm.Perms == "---p" || pm.Perms == "r--p") {
 					violate("mapped-after-close/"+im.name, "%s: after Close the secret's pages are still mapped (%s); after %v", im.name, pm.Perms, prog)
 					return
 				}
@@ -205,7 +208,7 @@ func runC11(t *simrt.Tape, o Opts) Outcome {
 		}
 		newSecret := func(n int) *trackedSecret {
 			size := secretSizes[t.Choose(len(secretSizes), "size")]
-			ts := &trackedSecret{n: n}
+			ts := &trackedSecret{n: n, size: size}
 			var err error
 			if t.Choose(2, "random") == 1 {
 				prog = append(prog, fmt.Sprintf("s%d=CreateRandom(%d)", n, size))
@@ -530,9 +533,12 @@ func runC12(t *simrt.Tape, o Opts) Outcome {
 				mapped, locked := r.Mapped, r.Locked
 				if im.name == "memguard" {
 					// memguard releases inside its library: ask the kernel
+					// ... about a mapping that can be the secret's (the runtime's own address-space
+					// reservations are PROT_NONE too and may cover a released address)
 					pm := fakes.ProcFlags(r.Addr)
-					mapped = r.RealFreeErr != "" || (pm.Found && (pm.Perms == "---p" || pm.Perms == "r--p"))
-					locked = pm.Found && strings.Contains(pm.Flags, " lo ") && (pm.Perms == "---p" || pm.Perms == "r--p")
+					own := pm.SizedLike(r.Addr, r.Len)
+					mapped = r.RealFreeErr != "" || (own && (pm.Perms == "---p" || pm.Perms == "r--p"))
+					locked = own && strings.Contains(pm.Flags, " lo ") && (pm.Perms == "---p" || pm.Perms == "r--p")
 				}
 				if mapped || locked {
 					violate("region-left-behind/"+im.name+"/"+c12Ops[op], "%s: after the failed %s a region is still mapped=%v locked=%v prot=%s", desc(), what, mapped, locked, r.Prot)
